@@ -179,7 +179,7 @@ def failure_scenario(ctx, kind):
     def data(sub):
         return {'key': f'c20:failure:{kind}:{sub}', 'replay': dict(rec, sub=sub)}
     base = baseline(m, 'sum')
-    k = int(ctx.idx('k', 0, 5)) if kind == 'graph' else 0
+    k = int(ctx.idx('k', 0, 5)) if kind == 'graph' else int(ctx.idx('k', 0, 11)) if kind == 'desc-trunc' else 0
 
     def bad_graph(amp=0.3):
         xs = []
@@ -204,11 +204,24 @@ def failure_scenario(ctx, kind):
             sd.as_bytes()
         elif kind == 'signature':
             sdf.SynthDef('sig', lambda *args: None)
+        elif kind in ('desc-unit', 'desc-trunc'):
+            # a description READ that fails: it runs under the build lock with a dummy definition as build context
+            import io
+            from sc3.synth import synthdesc as sdc
+            ref = bytes(base)
+            if kind == 'desc-unit':
+                unit = b'LFNoise0'
+                if unit not in ref:
+                    raise PathAbort('unit name not in the bytes')
+                bad = ref.replace(unit, b'LFNoisx0'[:len(unit)])
+            else:
+                bad = ref[:10 + (k * (len(ref) - 10)) // 12]
+            sdc.SynthDesc._read_stream(io.BytesIO(bad))
         else:
             sdf.SynthDef('bad', bad_graph)
     except Exception as e:
         raised = e
-    if raised is None:
+    if raised is None and kind != 'desc-trunc':       # a cut inside the trailing variants may still read
         raise Violation(f'failing build ({kind}) did not raise', None, data('no-raise'))
     if main._current_synthdef is not None:
         raise Violation(f'after a build that failed ({kind}: {type(raised).__name__}) the build context still points '
@@ -638,7 +651,7 @@ def main(tier, seed):
     chk.functions = src_hash([S._build, S._init_build, S._finish_build, S._optimize_graph, S._topological_sort,
                               S._init_topo_sort, S._add_ugen, S._replace_ugen, G._arrange, G._init_topo_sort,
                               G._add_to_synth, G._perform_dead_code_elimination, ugn.BinaryOpUGen._optimize_graph])
-    fails = ['graph', 'input-check', 'nan', 'bad-arg', 'writer', 'signature']
+    fails = ['graph', 'input-check', 'nan', 'bad-arg', 'writer', 'signature', 'desc-unit', 'desc-trunc']
     for mode in ('nrt', 'rt'):
         jobs = [dict(mode=mode, kind='order', graph=g) for g in GRAPHS]
         jobs += [dict(mode=mode, kind='failure', fail=f) for f in fails]
